@@ -26,9 +26,9 @@ Python lines mirrored (line numbers of /repo/esr/fitting/combine_DL.py):
                      stable sort returns the same list; the model is the stable insertion sort.
 * `dupLoop`        — lines 155-159 the `negloglike_list` scan (`x in list` is `==` on fresh `np.float64` scalars, so a
                      NaN likelihood never matches).
-* `prel`           — lines 154-164: `Prel_DL` initialised to `inf`, `DL_sort[i]-DL_sort[0]` for non-duplicates,
-                     `np.exp(-Prel_DL)`, non-finite/NaN entries set to `0.0`, division by `np.sum` (a plain
-                     left-to-right sum here; numpy's pairwise order differs only in rounding).
+* `prel`           — lines 154-165: `Prel_DL` initialised to `inf`, `DL_sort[i]-DL_sort[0]` for non-duplicates,
+                     `np.exp(-Prel_DL)`, non-finite/NaN entries set to `0.0`, then `if np.sum(Prel) > 0:` division
+                     by `np.sum` (a plain left-to-right sum here; numpy's pairwise order differs only in rounding).
 * `gather`, `mkRows` — lines 137-142 (`x_min[indices_sort]`) and 169-178 (the csv rows, rank = loop index `i`).
 * `main`           — the whole function; `none` where Python raises: `data[:,0]` on a 1-D array (line 42, fewer than
                      two variant rows in total; line 110, fewer than two unique functions).
@@ -178,12 +178,13 @@ def prelRaw (ops : Ops α) (x : α) : α :=
 /-- `np.sum`. -/
 def sum (ops : Ops α) (xs : List α) : α := xs.foldl ops.add ops.zero
 
-/-- lines 154-164: `Prel` from the sorted `DL` and likelihood columns. -/
+/-- lines 154-165: `Prel` from the sorted `DL` and likelihood columns; the division is guarded by
+`if np.sum(Prel) > 0:` (otherwise every entry stays `0.0`). -/
 def prel (ops : Ops α) (dls nlls : List α) : List α :=
   let dl0 := dls.headD ops.nan
   let raw := (List.zipWith (prelDL ops dl0) dls (dupLoop ops [] nlls)).map (prelRaw ops)
   let s := sum ops raw
-  raw.map (fun p => ops.div p s)
+  if ops.lt ops.zero s then raw.map (fun p => ops.div p s) else raw
 
 /-- lines 169-178: the rows written to `final_<n>.dat` (rank `i`, then the sorted columns). -/
 def mkRows : Nat → List (α × Nat) → List (MinRow α) → List α → List (FinalRow α)
@@ -234,6 +235,6 @@ def modelledShape : List (String × List String) :=
     ("sort", ["sorted:(:transpose:vstack:DL_min:xarr:):key=:lambda:x:0"]),
     ("gather", ["DL_sort:arr_sort:0::", "indices_sort:arr_sort:1:::.astype:int", "params_sort:params_min:indices_sort::", "fcn_min_sort:[:fcn_min:i:for:i:in:indices_sort:]", "negloglike_sort:negloglike_min:indices_sort", "codelen_sort:codelen_min:indices_sort", "aifeyn_sort:aifeyn_min:indices_sort"]),
     ("dup", ["if:negloglike_sort:i:in:negloglike_list:continue", "negloglike_list:+=:negloglike_sort:i"]),
-    ("prel", ["Prel_DL:=:zeros:len:negloglike_sort:+:inf", "for:i:in:range:len:negloglike_sort", "Prel_DL:i:=:DL_sort:i:-:DL_sort:0", "endfor", "Prel:=:exp:neg:Prel_DL", "Prel:invert:isfinite:Prel:|:isnan:Prel:=:0.0", "Prel:/=:sum:Prel"]) ]
+    ("prel", ["Prel_DL:=:zeros:len:negloglike_sort:+:inf", "for:i:in:range:len:negloglike_sort", "Prel_DL:i:=:DL_sort:i:-:DL_sort:0", "endfor", "Prel:=:exp:neg:Prel_DL", "Prel:invert:isfinite:Prel:|:isnan:Prel:=:0.0", "if:sum:Prel:>:0", "Prel:/=:sum:Prel", "endif"]) ]
 
 end ESR.Rank
